@@ -19,7 +19,22 @@ pub fn pieces(text: &str) -> Option<Vec<Piece>> {
     if !diags.get_all().is_empty() {
         return None;
     }
-    Some(root.tokens(&db).map(|t| Piece { kind: t.kind(&db), text: t.get_text(&db).to_string() }).collect())
+    let mut out = vec![];
+    leaves(&db, &root, &mut out);
+    Some(out)
+}
+
+fn leaves<'a>(db: &'a SimpleParserDatabase, n: &cairo_lang_syntax::node::SyntaxNode<'a>, out: &mut Vec<Piece>) {
+    if n.text(db).is_some() {
+        let t = n.get_text(db);
+        if !t.is_empty() {
+            out.push(Piece { kind: n.kind(db), text: t.to_string() });
+        }
+        return;
+    }
+    for c in n.get_children(db) {
+        leaves(db, c, out);
+    }
 }
 
 fn is_ws(k: SyntaxKind) -> bool {
